@@ -234,6 +234,8 @@ POINTS:
 				fieldPrefix.WriteString(v)
 			} else {
 				n.diag.Error("point missing tag for flatten operation", fmt.Errorf("tag %s is missing from point", tag))
+				// Discard the partial prefix of the skipped point.
+				fieldPrefix.Reset()
 				continue POINTS
 			}
 		}
